@@ -768,7 +768,7 @@ func models(r *hx.Run) []hx.GModel {
 	var cfgs []cfg
 	th := r.Thorough()
 	switch *prop {
-	case "C04":
+	case "C04", "C14":
 		alpha := "core"
 		if th {
 			alpha = "full"
@@ -890,6 +890,116 @@ func userRaceBody(ops []string, allow bool) func() {
 	}
 }
 
+// inputRaceBody: the earliest handshake timer expires at the very moment a message of the peer arrives or the user
+// decides. The expiry is handled by the timer goroutine of the library, the message by the read pump, the decision
+// by the caller's goroutine; every interleaving of them (within the bound) is judged by the usual monitors. The
+// peer then plays the rest of a cooperative handshake as far as the connection lets it.
+func inputRaceBody(c cfg, hist []string, other string, rest []string) func() {
+	alpha := map[string]msg{}
+	for _, m := range alphabetFor("core") {
+		alpha[m.id] = m
+	}
+	return func() {
+		w := newWorld(c)
+		w.C.Run()
+		simrt.Quiesce()
+		for _, ev := range hist {
+			w.apply(ev, alpha)
+		}
+		ts := w.timers()
+		if len(ts) == 0 || !strings.Contains(ts[0].Label, "setHandshakeTimer") {
+			simrt.Outcome("no-handshake-timer")
+			return
+		}
+		simrt.Mark()
+		w.L.Evs = append(w.L.Evs, shipx.Ev{T: simrt.Elapsed(), Kind: "timer", Arg: ts[0].Label})
+		simrt.FireTimer(ts[0].ID)
+		switch {
+		case strings.HasPrefix(other, "D:"):
+			m := alpha[other[2:]]
+			if m.class == "data" {
+				w.dataIn = append(w.dataIn, payloadOf(m.id))
+				w.dataIDs = append(w.dataIDs, m.id)
+			}
+			w.delivered[m.id]++
+			w.L.Evs = append(w.L.Evs, shipx.Ev{T: simrt.Elapsed(), Kind: "deliver", Arg: m.id})
+			w.inbox = append(w.inbox, m.frame)
+		case other == "APPROVE":
+			w.P.Paired = true
+			w.L.Evs = append(w.L.Evs, shipx.Ev{T: simrt.Elapsed(), Kind: "trust", Arg: "on"})
+			simrt.Go("user-approve", func() { w.C.ApprovePendingHandshake() })
+		case other == "CANCEL":
+			simrt.Go("user-cancel", func() {
+				w.C.AbortPendingHandshake()
+				w.P.Paired = false
+				w.L.Evs = append(w.L.Evs, shipx.Ev{T: simrt.Elapsed(), Kind: "trust", Arg: "off"})
+			})
+		case other == "CLOSE":
+			w.L.Evs = append(w.L.Evs, shipx.Ev{T: simrt.Elapsed(), Kind: "userclose", Arg: "safe"})
+			simrt.Go("user-close", func() { w.C.CloseConnection(true, 0, "user close") })
+		}
+		simrt.Quiesce()
+		simrt.Unmark()
+		for _, ev := range rest {
+			// one message at a time: while the receive loop is busy (sleeping in the close exchange) the next frame waits in the socket
+			for i := 0; w.busy && i < 5; i++ {
+				simrt.RunFor(time.Second)
+			}
+			if w.W.Closed || w.busy {
+				break // peers cannot deliver anything after the transport was closed
+			}
+			w.apply(ev, alpha)
+		}
+		simrt.RunFor(70 * time.Second)
+		w.monitors(append(append([]string{}, hist...), "T0||"+other), 0, 0)
+		simrt.Outcome(shipx.StateName(w.state()))
+	}
+}
+
+// inputRaceScenarios: for both roles and every prefix of a cooperative handshake, the expiry of the timer that is
+// armed at that point against the next message of the handshake, the peer's abort, its close announce, and the
+// user's decisions.
+func inputRaceScenarios(r *hx.Run) []hx.Scenario {
+	var out []hx.Scenario
+	pb := 1
+	if r.Thorough() {
+		pb = 2
+	}
+	seqs := map[bool][]string{
+		true:  {"D:init", "D:helloReady", "D:protAnnounce", "D:protSelect", "D:pinNone", "D:accReq", "D:accA", "D:data1"},
+		false: {"D:init", "D:helloReady", "D:protSelect", "D:pinNone", "D:accReq", "D:accA", "D:data1"},
+	}
+	for _, c := range []cfg{
+		{server: true, trust: "paired", allow: true, alpha: "core"},
+		{server: true, trust: "none", allow: true, alpha: "core", userOps: true},
+		{server: false, trust: "paired", allow: true, alpha: "core"},
+	} {
+		seq := seqs[c.server]
+		for k := 0; k < len(seq)-1; k++ {
+			others := []string{seq[k], "D:closeAnnounce", "CLOSE"}
+			if k >= 1 && k <= 2 {
+				others = append(others, "D:helloAborted", "D:helloPending", "D:helloPendingProlong")
+			}
+			if c.trust == "none" && k == 2 {
+				others = append(others, "APPROVE", "CANCEL")
+			}
+			if !r.Thorough() && c.trust == "none" && k > 2 {
+				continue // without trust the handshake does not get further than the hello phase
+			}
+			for _, o := range others {
+				name := fmt.Sprintf("inputrace:%s/after=%d/T0||%s", c.name(), k, o)
+				out = append(out, hx.Scenario{Name: name, Body: inputRaceBody(c, seq[:k], o, seq[k:]), Bounds: simrt.B(pb, 0, 0),
+					Cfg: simrt.Config{MaxSteps: 200000, BranchAfterMark: true, BranchOnly: []string{"user", "reader", "setHandshakeTimer"}}})
+			}
+		}
+	}
+	return out
+}
+
+func sScenarios(r *hx.Run) []hx.Scenario {
+	return append(userRaceScenarios(r), inputRaceScenarios(r)...)
+}
+
 func userRaceScenarios(r *hx.Run) []hx.Scenario {
 	var out []hx.Scenario
 	pb := 1
@@ -911,10 +1021,10 @@ func main() {
 	r.ID = *prop
 	r.ReloadKnown()
 	ms := models(r)
-	withS := *prop == "C01" || *prop == "C04"
+	withS := *prop == "C01" || *prop == "C04" || *prop == "C14"
 	if r.Worker {
 		if hx.WorkerMode() == "s" {
-			hx.SWorker(userRaceScenarios(r))
+			hx.SWorker(sScenarios(r))
 			return
 		}
 		hx.GWorker(ms)
@@ -928,7 +1038,7 @@ func main() {
 		}
 		hx.ReadJSON(r.ReplayIn, &art)
 		if art.Replay.Scenario != "" {
-			hx.MaybeReplay(r, userRaceScenarios(r))
+			hx.MaybeReplay(r, sScenarios(r))
 		}
 	}
 	hx.GMaybeReplay(r, ms)
@@ -956,7 +1066,7 @@ func main() {
 	if withS {
 		r.EnsureBudget(40 * time.Second)
 		hx.SetWorkerMode("s")
-		scens := userRaceScenarios(r)
+		scens := sScenarios(r)
 		ss := hx.ExploreAll(r, scens, false, 0)
 		for k := range ss.Found {
 			if !(strings.HasPrefix(k, *prop+"|") || hx.KeptKey(k)) {
